@@ -121,7 +121,7 @@ func TestCatchThrow(t *testing.T) {
 	expect(t, catchProg, "catch(true, _C, write(demoen)), throw(bla)", " !bla")
 	expect(t, catchProg, "catch(car(X), Y, true)", "X=_G0,Y=1")
 	expect(t, catchProg, "catch(g, C, write(h1)), nl, fail", " >h1\n")
-	expect(t, catchProg, "catch(coo(_X), Y, true)", "Y=error(instantiation_error,_G0)")
+	expect(t, catchProg, "catch(coo(_X), Y, true)", "Y=error(instantiation_error,$ctx)")
 	// re-activation by backtracking into the goal
 	expect(t, catchProg, "catch(member(X, [1,2]), _, (write(caught), X = c)), X == 1, fail", "")
 	expect(t, catchProg, "catch(member(X, [1,2]), _, true), throw(oops)", " !oops")
